@@ -18,7 +18,7 @@ def main():
     seeds = sys.argv[1:] or sorted(d for d in os.listdir(f"{VERIF}/seeded") if os.path.isdir(f"{VERIF}/seeded/{d}"))
     tag = os.getpid()
     wt, snap = f"/tmp/wt_matrix_{tag}", f"/tmp/vf_snap_{tag}"
-    sh(f"git -C /repo worktree add -q --detach {wt} HEAD")
+    sh(f"flock /tmp/.verif_worktree.lock git -C /repo worktree add -q -f --detach {wt} HEAD")
     sh(f"rsync -a --exclude .git --exclude .venv --exclude evidence --exclude replays --exclude __pycache__ {VERIF}/ {snap}/")
     os.symlink(f"{VERIF}/.venv", f"{snap}/.venv")
     head = sh("git -C /repo rev-parse --short HEAD").stdout.strip()
@@ -62,7 +62,7 @@ def main():
                 json.dump(out, open(f"{VERIF}/seeded/DETECTION.json", "w"), indent=1, sort_keys=True)
             print(s, rec["detected"], {p: (c["exit"], c["violations"]) for p, c in rec["checks"].items()}, flush=True)
     finally:
-        sh(f"git -C /repo worktree remove --force {wt}")
+        sh(f"flock /tmp/.verif_worktree.lock git -C /repo worktree remove --force {wt}")
         sh(f"rm -rf {snap}")
 
 
